@@ -15,6 +15,7 @@ mod corpus;
 mod entropy;
 mod exec;
 mod json;
+mod model;
 mod oracle;
 mod plan;
 mod prng;
@@ -88,6 +89,24 @@ fn main() {
                     .collect(),
             );
             print!("{}", arr.pretty());
+        }
+        "model" => {
+            // debugging aid: print the reference model's view of the first task of a replay file
+            let text = std::fs::read_to_string(&args[2]).expect("read");
+            let j = json::Json::parse(&text).expect("json");
+            let c = case::Case::from_json(j.get("case").unwrap_or(&j)).expect("case");
+            let t = &c.execs[0].threads[0].tasks[0];
+            let m = model::run(&c.fss[t.fs], &t.faults, &t.entry, &t.defines);
+            println!("walk: {:#?}", m.walk);
+            println!("pasted: {:?} once_skips={} depth={}", m.pasted, m.once_skips, m.max_depth);
+            match &m.verdict {
+                model::Verdict::Ok(toks) => {
+                    for t in toks {
+                        println!("{}  @ {}", t.render(), t.loc());
+                    }
+                }
+                v => println!("{v:?}"),
+            }
         }
         "selfcheck" => match self_checks() {
             Ok(()) => println!("selfcheck ok"),
